@@ -8,6 +8,7 @@ Helper lemmas for the whole-load theorems of C02 / C15:
 Nothing here mentions the specification; the hypotheses are explicit numeric facts.
 -/
 import ElfioVerif.Model.Load
+import ElfioVerif.Spec.Records
 set_option linter.unusedSimpArgs false
 set_option linter.unusedVariables false
 namespace ElfioVerif
@@ -708,5 +709,68 @@ theorem loadSectionsLoop_inside (c : Cls) (enc : Enc) (isLazy : Bool) (shoff ent
       | succ j =>
         have := g7 j (by simpa using h)
         simpa [Nat.add_assoc, Nat.add_comm 1 j] using this
+
+/-! ### section names -/
+
+theorem slice_append_nul (T : Bytes) (idx : Nat) (h : idx ≤ T.length) :
+    slice (T ++ [0]) idx (T.length - idx) = T.drop idx := by
+  unfold slice
+  apply List.ext_getElem?
+  intro i
+  simp only [List.getElem?_take, List.getElem?_drop, List.getElem?_append, List.length_append]
+  repeat' split
+  all_goals first | rfl | omega | (exfalso; omega) | (congr 1; omega) | (simp_all; try omega)
+
+/-- the bounded `memchr` lookup on a loaded string table (`T` plus the loader's terminator) is the
+    specification's C-string lookup in `T`; it never leaves the buffer -/
+theorem cstrAt_eq_spec (site : String) (T : Bytes) (idx : Nat) :
+    cstrAt site (T ++ [0]) T.length idx = .ok (Spec.cstrAt T idx) := by
+  unfold cstrAt Spec.cstrAt
+  by_cases h : idx ≥ T.length
+  · simp only [h, if_true]; rfl
+  · simp only [h, if_false]
+    rw [slice_append_nul T idx (by omega)]
+    cases (T.drop idx).idxOf? (0 : UInt8) with
+    | some k => rfl
+    | none => simp [List.length_drop]; rfl
+
+/-- file contents of a section as the specification sees them (NULL/NOBITS occupy no file space) -/
+def secBytes (img : Bytes) (b : SecBuf) : Bytes :=
+  if isNullOrNobitsTy b.stype then [] else slice img b.offset.toNat b.size.toNat
+
+theorem getString_resident (img : Bytes) (b hb : SecBuf) (x : BitVec 32)
+    (hd : b.data = (secData img hb).1) (hs : b.size = hb.size)
+    (hin : isNullOrNobitsTy hb.stype = false → hb.offset.toNat + hb.size.toNat ≤ img.length) :
+    getString b x = .ok (Spec.cstrAt (secBytes img hb) x.toNat) := by
+  unfold getString secBytes
+  rw [hd]
+  unfold secData
+  cases hty : isNullOrNobitsTy hb.stype
+  · have hi := hin hty
+    by_cases hz : hb.size = 0
+    · simp only [Bool.false_eq_true, if_false, hz, if_true, hs, BitVec.toNat_zero]
+      simp [cstrAt, Spec.cstrAt, slice]; rfl
+    · simp only [Bool.false_eq_true, if_false, hz, hs]
+      have hl : (slice img hb.offset.toNat hb.size.toNat).length = hb.size.toNat := slice_length_of_le hi
+      have := cstrAt_eq_spec "get_string/memchr" (slice img hb.offset.toNat hb.size.toNat) x.toNat
+      rw [hl] at this
+      exact this
+  · simp [Spec.cstrAt]; rfl
+
+/-- names set from the specification's lookup in string table `T` -/
+def withName (T : Bytes) (b : SecBuf) : SecBuf :=
+  match Spec.cstrAt T b.nameOff.toNat with
+  | some s => { b with name := s }
+  | none => b
+
+theorem resolveNames_eq (strtab : SecBuf) (T : Bytes)
+    (h : ∀ x, getString strtab x = .ok (Spec.cstrAt T x.toNat)) :
+    ∀ l : List SecBuf, resolveNames strtab l = .ok (l.map (withName T)) := by
+  intro l
+  induction l with
+  | nil => rfl
+  | cons b rest ih =>
+    simp only [resolveNames, h, ih, List.map_cons, withName]
+    rfl
 
 end ElfioVerif
